@@ -24,6 +24,17 @@ type gen struct {
 // Trace, when set, sees every generated case (profiling aid).
 var Trace func(class, line string)
 
+// safely runs one generator section; if the real code it calls while generating panics (on a changed tree), the
+// section is cut short and a line is emitted on which implementation and model must disagree.
+func (x *gen) safely(name string, f func()) {
+	defer func() {
+		if r := recover(); r != nil {
+			x.g.Case("generator-crash", true, "C08 gencrash "+name)
+		}
+	}()
+	f()
+}
+
 func (x *gen) emit(class string, nontrivial bool, line string) {
 	if Trace != nil {
 		Trace(class, line)
@@ -197,7 +208,7 @@ type built struct {
 	kind     string
 	msg      wire.Message // nil when raw is given
 	raw      []byte
-	countOff int // offset of the element count varint in the payload, -1 if none
+	countOff int  // offset of the element count varint in the payload, -1 if none
 	invalid  bool // deliberately outside the domain (the encoder is expected to refuse it)
 }
 
@@ -920,61 +931,64 @@ func (P) Generate(g *core.Gen) {
 			}
 		}
 	}
-	x.hostile()
-	x.boundary()
+	x.safely("hostile", x.hostile)
+	x.safely("boundary", x.boundary)
 	// structured messages of every kind at every gate version, with their hostile variants
 	rounds := g.N(6, 45)
 	for round := 0; round < rounds; round++ {
 		for _, kind := range kinds {
-			b := x.build(kind)
-			pvs := gatePvers(kind)
-			if round%3 == 1 {
-				pvs = []uint32{pvers[r.Intn(len(pvers))]}
-			}
-			for _, pver := range pvs {
-				for _, e := range encs(kind) {
-					p, ok := x.payload(b, pver, e)
-					if !ok {
-						// the encoder refuses the value at this version: the decoder must refuse its
-						// would-be bytes too (take the encoding at the newest version)
-						if q, ok2 := x.payload(b, wire.ProtocolVersion, e); ok2 {
-							x.dec("gate:"+kind, kind, pver, e, q, true)
-						} else if !b.invalid {
-							// a value the generator holds to be in the domain, refused by the real encoder at
-							// the current protocol version: the model's domain is wrong, or the encoder is
-							x.emit("encoder-refuses", true, fmt.Sprintf("C08 encrefused %s %d %s", kind, pver, e))
+			kind := kind
+			x.safely("structured:"+kind, func() {
+				b := x.build(kind)
+				pvs := gatePvers(kind)
+				if round%3 == 1 {
+					pvs = []uint32{pvers[r.Intn(len(pvers))]}
+				}
+				for _, pver := range pvs {
+					for _, e := range encs(kind) {
+						p, ok := x.payload(b, pver, e)
+						if !ok {
+							// the encoder refuses the value at this version: the decoder must refuse its
+							// would-be bytes too (take the encoding at the newest version)
+							if q, ok2 := x.payload(b, wire.ProtocolVersion, e); ok2 {
+								x.dec("gate:"+kind, kind, pver, e, q, true)
+							} else if !b.invalid {
+								// a value the generator holds to be in the domain, refused by the real encoder at
+								// the current protocol version: the model's domain is wrong, or the encoder is
+								x.emit("encoder-refuses", true, fmt.Sprintf("C08 encrefused %s %d %s", kind, pver, e))
+							}
+							continue
 						}
-						continue
-					}
-					x.dec("valid:"+kind, kind, pver, e, p, len(p) > 0)
-					if round < g.N(4, 20) && pver == pvs[len(pvs)-1] {
-						x.malformed(b, pver, e, p)
-					}
-					if len(p) <= 200000 {
-						x.messageLevel(b, pver, e, p)
-					}
-				}
-			}
-			if kind == "tx" || kind == "block" {
-				if p, ok := x.payload(b, 0, "w"); ok && len(p) < 400000 {
-					op := "txbytes"
-					if kind == "block" {
-						op = "blockbytes"
-					}
-					x.emit(op, true, "C08 "+op+" "+hx(p))
-					x.emit(op, true, "C08 "+op+" "+hx(append(append([]byte{}, p...), 0)))
-					if len(p) > 1 {
-						x.emit(op, true, "C08 "+op+" "+hx(p[:r.Intn(len(p))]))
+						x.dec("valid:"+kind, kind, pver, e, p, len(p) > 0)
+						if round < g.N(4, 20) && pver == pvs[len(pvs)-1] {
+							x.malformed(b, pver, e, p)
+						}
+						if len(p) <= 200000 {
+							x.messageLevel(b, pver, e, p)
+						}
 					}
 				}
-			}
+				if kind == "tx" || kind == "block" {
+					if p, ok := x.payload(b, 0, "w"); ok && len(p) < 400000 {
+						op := "txbytes"
+						if kind == "block" {
+							op = "blockbytes"
+						}
+						x.emit(op, true, "C08 "+op+" "+hx(p))
+						x.emit(op, true, "C08 "+op+" "+hx(append(append([]byte{}, p...), 0)))
+						if len(p) > 1 {
+							x.emit(op, true, "C08 "+op+" "+hx(p[:r.Intn(len(p))]))
+						}
+					}
+				}
+			})
 		}
 	}
-	x.sequences()
-	x.helperAPIs()
-	x.primitives()
-	x.byteSweeps()
-	x.round3()
+	x.safely("sequences", x.sequences)
+	x.safely("helperAPIs", x.helperAPIs)
+	x.safely("primitives", x.primitives)
+	x.safely("byteSweeps", x.byteSweeps)
+	x.safely("round3", x.round3)
 	// random garbage into every decoder
 	for i := 0; i < g.N(300, 6000); i++ {
 		kind := kinds[r.Intn(len(kinds))]
@@ -1140,7 +1154,7 @@ func (x *gen) v2Level(b built, pver uint32, enc string, p []byte) {
 		bad := append([]byte{0}, frameCmd(b.kind)...)
 		bad[1+r.Intn(12)] ^= 0x20
 		emit("v2-badcommand", append(bad, p...))
-		emit("v2-badcommand", append(append([]byte{0}, frameCmd(b.kind + "\x00x")...), p...))
+		emit("v2-badcommand", append(append([]byte{0}, frameCmd(b.kind+"\x00x")...), p...))
 	case 4:
 		// another kind's short id in front of this payload
 		emit("v2-crosskind", append([]byte{byte(ids[r.Intn(len(ids))])}, p...))
@@ -1390,7 +1404,7 @@ func (x *gen) byteSweeps() {
 	for _, e := range []string{"w", "b"} {
 		sweep("tx", 70016, e, wb, 5)
 		sweep("tx", 70016, e, wb, 4)
-		sweep("tx", 70016, e, lb, 4)                // input count
+		sweep("tx", 70016, e, lb, 4)                 // input count
 		sweep("tx", 70016, e, wb, len(wb)-4-1-1-2-1) // witness item count region
 	}
 	// a block holding the transaction: the same flag byte one level down
@@ -1482,7 +1496,7 @@ func (x *gen) round3() {
 		case 3:
 			return "n.-." + hexs(2) // nil item, empty item, data item
 		}
-		return hexs(1 + r.Intn(3)) + "." + hexs(1)
+		return hexs(1+r.Intn(3)) + "." + hexs(1)
 	}
 	in := func(w string) string {
 		h := x.hash()
@@ -1559,7 +1573,12 @@ func (x *gen) round3() {
 			func() *wire.MsgTx { return x.tx(1, 0, false) },
 			func() *wire.MsgTx { return x.tx(2, 3, true) },
 			func() *wire.MsgTx { t := x.tx(3, 1, false); t.Version = -1; return t },
-			func() *wire.MsgTx { t := x.tx(1, 2, true); t.TxIn[0].Witness = [][]byte{{}}; t.LockTime = 0xffffffff; return t },
+			func() *wire.MsgTx {
+				t := x.tx(1, 2, true)
+				t.TxIn[0].Witness = [][]byte{{}}
+				t.LockTime = 0xffffffff
+				return t
+			},
 			func() *wire.MsgTx { t := x.tx(4, 4, false); t.TxIn[3].Witness = [][]byte{{1}}; return t }, // witness only on the last input
 		}
 		perm := r.Intn(len(shapes))
